@@ -786,6 +786,9 @@ def div32_contract(c, t, x, y):
                 ens.append(('div sign rules lane %d' % i, '%s || ((%s == 0 || %s == (%s != %s)) && (%s == 0 || %s == %s))' % (g, ql, neg(ql), neg(xl), neg(yl), rl, neg(rl), neg(xl))))
         k = Contract('int_div', ['C05'], ensures=ens, cxx='avel::div({0}, {1})', flags=['div', 'split'])
         k.unwind = 34
+        if W >= 8:
+            k.not_covered = ('8-lane shift-subtract loop (AVX2 branch): the fully unwound 32-iteration loop over 8 lanes needs > 20 GB and > 15 min per lane '
+                             'post-condition (measured on the 4-lane SSE2 twin: 13.7 GB, 7.5 min); the 4-lane loop of the same shape IS discharged (thorough tier)')
         k.modulo_lemma = 'L5 (euclid_witness, AvelLemmas.lean): remainder below the divisor and the multiplier-free Euclidean witness <=> quot == x / y, rem == x % y'
         return k
     if t.signed:
